@@ -3,7 +3,9 @@
 
    What the theorems carry: the bookkeeping that is meant to make the property hold -- the
    by-name map, the per-layout by-index vector, the per-layout snapshot cache, the frame stack --
-   as implemented (sync only on success, host calls neither clear the frame stack nor sync).
+   as implemented after the repairs c94595b (a failed run is dropped from the frame stack),
+   a3cbd29 (Return copies the globals to the by-name map when it leaves the run loop) and bae557e
+   (cached callables push a frame that carries its mapping id).
    What the tie (hx_repl) carries: that whole sessions print what a reference interpreter of
    the session prints, and that the model's operations are what the VM does.
 
@@ -51,26 +53,37 @@ Theorem snapshot_cache_never_stale : forall ops st, ginv st -> ops_ok st ops ->
     vec = load_vec (gmap (final st ops)) (names_of (final st ops) id).
 Proof. exact snapshot_cache_never_stale_lemma. Qed.
 
-(* host calls: entered on an empty frame stack, the host receives the callee's value *)
-Theorem host_call_returns_callee_value : forall st L cached v,
+(* host calls.  A run that fails is dropped from the frame stack whatever it had pushed (c94595b) *)
+Theorem failed_run_is_unwound : forall above e F, f_entry e = true ->
+  Forall (fun f => f_entry f = false) above -> unwind (above ++ e :: F) = F.
+Proof. exact unwind_drops_run. Qed.
+
+(* ... so between the steps of a session (REPL inputs and host calls, each a bracketed run that
+   either returns or fails somewhere inside, at any call depth) the frame stack is empty ... *)
+Theorem frames_empty_between_steps : forall steps st, frames st = [] ->
+  forallb (balanced 0) steps = true -> frames (session_state st steps) = [].
+Proof. exact frames_empty_between_steps. Qed.
+
+(* ... and a host call made at any point of a session returns what its callee returns: the former
+   entry condition `frames = []` is now re-established by the code itself *)
+Theorem host_call_returns_callee_value : forall steps L cached v,
+  forallb (balanced 0) steps = true ->
+  host_call_result (session_state ginit steps) L cached v = HostGets v.
+Proof. exact host_call_in_session. Qed.
+
+Theorem host_call_on_empty_stack : forall st L cached v,
   frames st = [] -> host_call_result st L cached v = HostGets v.
 Proof. exact host_call_clean_entry. Qed.
 
-(* ... but nothing re-establishes that entry condition after a failed host call: the failed
-   callee's frame is still on the stack and the next host call resumes it (reproduced on the
-   real code: corpus/C14/host_call_after_failed_host_call.txt) *)
-Theorem host_call_after_failure_refuted :
-  exists (st : gstate) (L : layout) (v : Z),
-    st = r_st (run_ops ginit [OHostCall L_boom false; OFail] [] [] false) /\
-    host_call_result st L false v <> HostGets v.
-Proof. exact host_call_after_failure_refuted_lemma. Qed.
-
-(* a host call that returns normally does not copy its writes of globals to the by-name map
-   (Return synchronises only towards a caller frame): two host calls bump a counter 10 -> 13 -> 16,
-   the next REPL input reads 10 (reproduced: corpus/C14/host_call_write_lost.txt) *)
-Example host_call_write_lost_witness :
-  session_obs_noflags host_write_session = [[0; -7]; [0; -7; 13]; [0; -7; 16]; [0; -7; 10]]%Z.
-Proof. exact host_write_lost. Qed.
+(* the two sessions that refuted the property before the repairs (corpus/C14): a host call after a
+   failed host call now gets its callee's value, and the writes of host-called functions reach the
+   next REPL input (10 -> 13 -> 16, read 16; the second call through a cached callable) *)
+Example former_counterexamples_now_fine :
+  (frames after_failed_host_call = [] /\
+   host_call_result after_failed_host_call L_ok false 42 = HostGets 42) /\
+  (session_obs_noflags host_write_session = [[0; -7]; [0; -7; 13]; [0; -7; 16]; [0; -7; 16]]%Z /\
+   forallb (balanced 0) host_write_session = true).
+Proof. exact former_counterexamples_fine. Qed.
 
 (* the initial state satisfies the invariant, and the entry conditions are satisfiable by a
    non-trivial session (definition, cross-layout call mutating a global, a failing input, a later
